@@ -370,7 +370,7 @@ def apply_op(pool, op, ctx, prefix="c09"):
             for rep in range(op.get("repeat", 2)):
                 frag_r = guarded(prefix, "copy", other_r.copy)
                 frag_m = other_m.clone()
-                d = [1.5 * (rep + 1), 0.0, 0.25 * rep]
+                d = [1.5 * (rep + 1) * op.get("shift_scale", 1.0), 0.0, 0.25 * rep * op.get("shift_scale", 1.0)]
                 frag_r.translate(np.array(d))
                 frag_m.translate(d)
                 guarded(prefix, "extend offsets=extend_types() repeat %d" % rep, R[o].extend, frag_r, offsets=offs)
@@ -586,7 +586,7 @@ def gen_ops(rng, nobj, nops, cfg, weights=None):
         elif k == "restart":
             ops.append({"op": "restart", "obj": rng.randrange(cur), "style": rng.choice(["full", "full", "atomic"]),
                         "via": rng.choice(["path", "file", "save_lmpdat"]), "fault": None, "keep": rng.random() < 0.5,
-                        "pathkind": rng.choice(["std", "std", "odd_ext", "pathlib"]), "same_handle": rng.random() < 0.3})
+                        "pathkind": rng.choice(["std", "std", "odd_ext", "pathlib", "dotted"]), "same_handle": rng.random() < 0.3})
     return ops
 
 
